@@ -24,8 +24,8 @@ ID = "C14"
 LEVEL = "exploration"
 RULE = (
     "alphabet = {fitA, fitB, fitBo(overwrite), is, smc, E (enter auto_checkpoint(file1)), E2 (enter nested auto_checkpoint(file2)), X (leave), R "
-    "(resume_from_file(file1))}; all valid sequences up to length 3 (quick) / 4 (thorough) plus seeded random sequences up to length 8; operations "
-    "outside a context pass the path explicitly. non-trivial = sequence containing >=1 SMC run and >=1 later operation touching the same file; "
+    "(resume_from_file(file1)), smc2 / fitB2 (explicit checkpoint_path=file2 whatever context is active)}; all valid sequences up to length 3 (quick) / 4 "
+    "(thorough) plus seeded random and structured (outer context - nested refit - outer sampling) sequences up to length 12; operations outside a context pass the path explicitly. non-trivial = sequence containing >=1 SMC run and >=1 later operation touching the same file; "
     "distinct = the sequence itself"
 )
 ASSUMPTIONS = [
@@ -35,7 +35,8 @@ ASSUMPTIONS = [
 REQUIRED_COUNTERS = ["sequences", "operations", "file_probes_with_checkpoint", "final_resumes"]
 EXHAUSTIVE = lambda tier: True  # noqa: E731
 
-TOKENS = ["fitA", "fitB", "fitBo", "is", "smc", "E", "E2", "X", "R"]
+TOKENS = ["fitA", "fitB", "fitBo", "is", "smc", "E", "E2", "X", "R", "smc2", "fitB2"]
+# smc2 / fitB2: the operation names file2 explicitly (checkpoint_path=...), whatever context is active
 
 
 def valid(seq):
@@ -55,11 +56,11 @@ def valid(seq):
             depth -= 1
         elif tok.startswith("fit"):
             fitted = True
-            has_file = True
-        elif tok in ("is", "smc"):
+            has_file = has_file or tok != "fitB2" or depth > 0
+        elif tok in ("is", "smc", "smc2"):
             if not fitted:
                 return False
-            has_file = True
+            has_file = has_file or tok != "smc2" or depth > 0
         elif tok == "R":
             if depth != 0 or not has_file:
                 return False
@@ -71,7 +72,7 @@ def all_sequences(maxlen):
     out = []
     for L in range(1, maxlen + 1):
         for seq in itertools.product(TOKENS, repeat=L):
-            if valid(seq) and any(t in ("is", "smc") for t in seq):
+            if valid(seq) and any(t in ("is", "smc", "smc2") for t in seq):
                 out.append(list(seq))
     return out
 
@@ -85,9 +86,13 @@ def cases(tier, seed):
     tries = 0
     while len(extra) < n_rand and tries < 200000:
         tries += 1
-        L = int(g.integers(4, 9))
+        L = int(g.integers(4, 10))
         seq = [TOKENS[i] for i in g.integers(0, len(TOKENS), L)]
-        if valid(seq) and "smc" in seq:
+        if tries % 3 == 0:
+            # structured: sampling in an outer context, a refit inside a nested context (or on another file), sampling again outside
+            mid = [[TOKENS[i] for i in g.integers(0, 5, int(g.integers(0, 3)))] for _ in range(3)]
+            seq = [str(g.choice(["fitA", "fitB"]))] + ["E"] + mid[0] + ["smc"] + ["E2"] + mid[1] + [str(g.choice(["fitB", "fitA", "fitBo"]))] + ["X"] + mid[2] + [str(g.choice(["smc", "is", "R"]))]
+        if valid(seq) and ("smc" in seq or "smc2" in seq):
             extra.append(seq)
     per = 12
     allseq = seqs + extra
@@ -190,6 +195,12 @@ def run_sequence(seq, g, counters, viol):
             elif tok == "X":
                 cms.pop().__exit__(None, None, None)
                 ctx_paths.pop()
+            elif tok == "fitB2":
+                a.fit(data["B"], checkpoint_path=f2)
+            elif tok == "smc2":
+                res = smcrun.run(a, 10, "smc", dict(smc_kw, rng=np.random.default_rng(int(g.integers(2**31))), checkpoint_path=f2), max_calls=500)
+                if res.exc is not None:
+                    raise res.exc
             elif tok.startswith("fit"):
                 kw = {} if inside else {"checkpoint_path": f1}
                 a.fit(data["A" if tok == "fitA" else "B"], overwrite=(tok == "fitBo"), **kw)
@@ -249,7 +260,7 @@ def run_case(case):
     for seq in case["seqs"]:
         before = len(viol)
         run_sequence(seq, g, counters, viol)
-        if "smc" in seq and seq.index("smc") < len(seq) - 1:
+        if ("smc" in seq and seq.index("smc") < len(seq) - 1) or ("smc2" in seq and seq.index("smc2") < len(seq) - 1):
             nontrivial.append(">".join(seq))
         # keep one witness per mechanism per sequence
         seen = {}
